@@ -351,6 +351,9 @@ func (fr *Frame) applyContract(c *Contract, fn *ssa.Function, key string, args [
 	if c.Trusted {
 		fr.vc.assumed["trusted contract: "+key+" ("+c.Attrs["trusted"]+")"] = true
 	}
+	if len(c.Modifies) > 0 || (fn != nil && len(fn.Blocks) > 0 && len(fr.eng.writeSetOf(fn).heaps) > 0) {
+		fr.assumeGlobalInvariants()
+	}
 	return rv
 }
 
@@ -398,7 +401,9 @@ func (fr *Frame) havocForCall(c *Contract, fn *ssa.Function, key string, names m
 		for _, l := range locs {
 			for _, leaf := range leafLocs(l) {
 				n := vc.registerHeap(leaf)
-				if leaf.kind == locElem && leaf.idx == "*" {
+				if leaf.ref == "*" {
+					wholeHeap[n] = true
+				} else if leaf.kind == locElem && leaf.idx == "*" {
 					declared[n] = append(declared[n], leaf.ref)
 				} else if leaf.kind == locGlobal {
 					wholeHeap[n] = true
@@ -625,12 +630,12 @@ func (fr *Frame) doAppend(c *ssa.CallCommon, args []*Val) *Val {
 		dst := vc.fresh("append_dst", arrSort(sortOf(leaf.typ)))
 		base := vc.fresh("append_base", sInt)
 		vc.fact(eq(base, ite(fitsC, sOff(s), "0")))
-		vc.fact(fmt.Sprintf("(forall ((j! Int)) (! (=> (and (<= 0 j!) (< j! %s)) (= (select %s (+ %s %s j!)) (select %s (+ %s j!)))) :pattern ((select %s (+ %s %s j!)))))",
-			n, dst, base, sLen(s), srcArr, sOff(t), dst, base, sLen(s)))
-		vc.fact(fmt.Sprintf("(forall ((j! Int)) (! (=> (and (<= 0 j!) (< j! %s)) (= (select %s (+ %s j!)) (select %s (+ %s j!)))) :pattern ((select %s (+ %s j!)))))",
-			sLen(s), dst, base, dstOld, sOff(s), dst, base))
-		// in place: everything outside the appended window is unchanged
-		vc.fact(implies(fitsC, fmt.Sprintf("(forall ((j! Int)) (! (=> (or (< j! (+ %s %s)) (>= j! (+ %s %s %s))) (= (select %s j!) (select %s j!))) :pattern ((select %s j!))))",
+		// appended window, old prefix, and (in place) everything else: absolute indices, one simple trigger
+		vc.fact(fmt.Sprintf("(forall ((k! Int)) (! (=> (and (<= (+ %s %s) k!) (< k! (+ %s %s %s))) (= (select %s k!) (select %s (+ %s (- k! %s %s))))) :pattern ((select %s k!))))",
+			base, sLen(s), base, sLen(s), n, dst, srcArr, sOff(t), base, sLen(s), dst))
+		vc.fact(fmt.Sprintf("(forall ((k! Int)) (! (=> (and (<= %s k!) (< k! (+ %s %s))) (= (select %s k!) (select %s (+ %s (- k! %s))))) :pattern ((select %s k!))))",
+			base, base, sLen(s), dst, dstOld, sOff(s), base, dst))
+		vc.fact(implies(fitsC, fmt.Sprintf("(forall ((k! Int)) (! (=> (or (< k! (+ %s %s)) (>= k! (+ %s %s %s))) (= (select %s k!) (select %s k!))) :pattern ((select %s k!))))",
 			sOff(s), sLen(s), sOff(s), sLen(s), n, dst, dstOld, dst)))
 		if sortOf(leaf.typ) == sInt && fr.eng.isByte(leaf.typ) {
 			// byte content: ranks of the old prefix and of the appended window carry over
@@ -682,8 +687,8 @@ func (fr *Frame) doCopy(c *ssa.CallCommon, args []*Val) *Val {
 		srcArr := sel(h, sArr(s))
 		dstOld := sel(h, sArr(d))
 		dst := vc.fresh("copy_dst", arrSort(sortOf(leaf.typ)))
-		vc.fact(fmt.Sprintf("(forall ((j! Int)) (! (=> (and (<= 0 j!) (< j! %s)) (= (select %s (+ %s j!)) (select %s (+ %s j!)))) :pattern ((select %s (+ %s j!)))))",
-			n, dst, sOff(d), srcArr, sOff(s), dst, sOff(d)))
+		vc.fact(fmt.Sprintf("(forall ((k! Int)) (! (=> (and (<= %s k!) (< k! (+ %s %s))) (= (select %s k!) (select %s (+ %s (- k! %s))))) :pattern ((select %s k!))))",
+			sOff(d), sOff(d), n, dst, srcArr, sOff(s), sOff(d), dst))
 		vc.fact(fmt.Sprintf("(forall ((j! Int)) (! (=> (or (< j! %s) (>= j! (+ %s %s))) (= (select %s j!) (select %s j!))) :pattern ((select %s j!))))",
 			sOff(d), sOff(d), n, dst, dstOld, dst))
 		if sortOf(leaf.typ) == sInt && fr.eng.isByte(leaf.typ) {
